@@ -6,7 +6,8 @@
 // A row names a committed block (list of universe transactions, coinbase first, with or without witness commitment), an
 // announcement (header null or not, short ids by representative transaction, prefilled transactions with differential
 // indexes), a mempool and an extra pool (sequences), a blocktxn answer and the outcome the specification computes.
-// The universe: a / a2 are twins (same txid, different witness), b c x without witness, d y with witness, "null" the empty tx.
+// The universe: a / a2 are twins (same txid, different witness), b c x without witness, d y with witness, "null" the empty tx;
+// as / ds / ys are the witness-stripped forms of a|a2 / d / y and "cbs" is the coinbase without its witness reserved value.
 // Short-id collisions are realised the way src/test/blockencodings_tests.cpp does: an entry of the extra pool - and here also
 // of the mempool's public wtxid index txns_randomized - is keyed with the wtxid of the representative of its collision class.
 //
@@ -66,6 +67,9 @@ void BuildUniverse()
 {
     g_tx["a"] = MakeTx(1, 1); g_tx["a2"] = MakeTx(1, 2); g_tx["b"] = MakeTx(2, 0); g_tx["c"] = MakeTx(3, 0);
     g_tx["d"] = MakeTx(4, 1); g_tx["x"] = MakeTx(5, 0); g_tx["y"] = MakeTx(6, 1);
+    // witness-stripped forms: same txid, no witness
+    g_tx["as"] = MakeTx(1, 0); g_tx["ds"] = MakeTx(4, 0); g_tx["ys"] = MakeTx(6, 0);
+    assert(g_tx["as"]->GetHash() == g_tx["a"]->GetHash() && !g_tx["as"]->HasWitness() && g_tx["ds"]->GetHash() == g_tx["d"]->GetHash());
     g_tx["null"] = MakeTransactionRef(CMutableTransaction{});
     assert(g_tx["a"]->GetHash() == g_tx["a2"]->GetHash() && g_tx["a"]->GetWitnessHash() != g_tx["a2"]->GetWitnessHash());
     assert(g_tx["null"]->IsNull());
@@ -100,14 +104,22 @@ CBlock BuildBlock(const UniValue& blk, bool commit)
 
 const char* St(ReadStatus s) { return s == READ_STATUS_OK ? "OK" : s == READ_STATUS_INVALID ? "INVALID" : "FAILED"; }
 
+// the block's coinbase without its witness (the witness reserved value); identical to the coinbase if that has none
+CTransactionRef StrippedCoinbase(const CBlock& block)
+{
+    CMutableTransaction m{*block.vtx[0]};
+    m.vin[0].scriptWitness.SetNull();
+    return MakeTransactionRef(m);
+}
 std::string NameOf(const CTransactionRef& t, const CBlock& block)
 {
     if (!t) return "none";
     if (t->GetWitnessHash() == block.vtx[0]->GetWitnessHash()) return "cb";
+    if (t->GetHash() == block.vtx[0]->GetHash()) return "cbs";
     auto it = g_name.find(t->GetWitnessHash().ToUint256());
     return it == g_name.end() ? "?" + t->GetWitnessHash().ToString().substr(0, 8) : it->second;
 }
-CTransactionRef TxOf(const std::string& n, const CBlock& block) { return n == "cb" ? block.vtx[0] : g_tx.at(n); }
+CTransactionRef TxOf(const std::string& n, const CBlock& block) { return n == "cb" ? block.vtx[0] : n == "cbs" ? StrippedCoinbase(block) : g_tx.at(n); }
 
 // "" if `got` is exactly the committed block, otherwise what differs
 std::string SameBlock(const CBlock& got, const CBlock& block, bool segwit)
